@@ -16,6 +16,7 @@ mod c10;
 mod c11;
 mod c13;
 mod c14;
+mod c15;
 mod c18;
 mod frames;
 
@@ -37,6 +38,7 @@ fn table(id: &str) -> Option<(RunFn, ReplayFn)> {
         "C11" => (c11::run, c11::replay),
         "C13" => (c13::run, c13::replay),
         "C14" => (c14::run, c14::replay),
+        "C15" => (c15::run, c15::replay),
         "C18" => (c18::run, c18::replay),
         _ => return None,
     })
